@@ -262,3 +262,109 @@ pub fn stack_probe(n: usize, stack: usize) -> bool {
         .unwrap();
     h.join().unwrap_or(false)
 }
+
+
+// ---- other shapes for the stack probes (C07): what matters is how deep the stack gets, whatever the shape
+
+static WIDE_DROPS: std::sync::atomic::AtomicUsize = std::sync::atomic::AtomicUsize::new(0);
+
+/// a payload that owns other objects through plain fields: they are released by `Drop`, not by `pop_edges`
+struct Blob(#[allow(dead_code)] [u64; 4]);
+unsafe impl circ::RcObject for Blob {
+    fn pop_edges(&mut self, _out: &mut Vec<Rc<Self>>) {}
+}
+impl Drop for Blob {
+    fn drop(&mut self) {
+        WIDE_DROPS.fetch_add(1, SeqCst);
+    }
+}
+struct File {
+    blob: Rc<Blob>,
+}
+unsafe impl circ::RcObject for File {
+    fn pop_edges(&mut self, _out: &mut Vec<Rc<Self>>) {}
+}
+impl Drop for File {
+    fn drop(&mut self) {
+        WIDE_DROPS.fetch_add(1, SeqCst);
+        let _ = &self.blob;
+    }
+}
+struct Dir {
+    files: Vec<Rc<File>>,
+}
+unsafe impl circ::RcObject for Dir {
+    fn pop_edges(&mut self, _out: &mut Vec<Rc<Self>>) {}
+}
+impl Drop for Dir {
+    fn drop(&mut self) {
+        WIDE_DROPS.fetch_add(1, SeqCst);
+        let _ = self.files.len();
+    }
+}
+
+/// `wide`: one directory of n files, each owning a blob, all released from destructors (every release is a
+/// decrement_strong issued while a collection is running).  `comb`: a root with w children, each the head of a
+/// chain of l nodes: the depth cap is hit w times while the cascade is deep, so the re-deferrals overflow the bag.
+pub fn stack_probe_kind(kind: &str, n: usize, stack: usize) -> bool {
+    ebr::set_tuning(64, 64);
+    let kind = kind.to_string();
+    let h = std::thread::Builder::new()
+        .stack_size(stack)
+        .spawn(move || match kind.as_str() {
+            "wide" => {
+                WIDE_DROPS.store(0, SeqCst);
+                let files: Vec<Rc<File>> = (0..n).map(|_| Rc::new(File { blob: Rc::new(Blob([7; 4])) })).collect();
+                let d = Rc::new(Dir { files });
+                for _ in 0..3 {
+                    round();
+                }
+                drop(d);
+                let want = 2 * n + 1;
+                let mut r = 0;
+                while WIDE_DROPS.load(SeqCst) < want && r < 40 * (n / 32 + 1) + 200 {
+                    round();
+                    r += 1;
+                }
+                WIDE_DROPS.load(SeqCst) == want
+            }
+            _ => {
+                // comb: w = n / 1500 teeth of 1500 nodes
+                let l = 1500usize;
+                let w = (n / l).max(2);
+                for _ in 0..6 {
+                    round();
+                }
+                DROPS.store(0, SeqCst);
+                let g = circ::cs();
+                // the root keeps its teeth in a chain of "spine" nodes: spine_i.next = spine_{i+1}, spine_i.other = tooth_i
+                let mut spine: Rc<Node> = Rc::null();
+                for _ in 0..w {
+                    let mut tooth: Rc<Node> = Rc::null();
+                    for i in 0..l {
+                        let nd = Rc::new(node(i + 1));
+                        unsafe { nd.deref() }.next.store(tooth, SeqCst, &g);
+                        tooth = nd;
+                    }
+                    let sp = Rc::new(node(0));
+                    unsafe { sp.deref() }.other.store(tooth, SeqCst, &g);
+                    unsafe { sp.deref() }.next.store(spine, SeqCst, &g);
+                    spine = sp;
+                }
+                drop(g);
+                for _ in 0..4 {
+                    round();
+                }
+                drop(spine);
+                let want = w * (l + 1);
+                let mut r = 0;
+                while DROPS.load(SeqCst) < want && r < 60 * (want / 1024 + 1) + 200 {
+                    round();
+                    r += 1;
+                }
+                DROPS.load(SeqCst) == want
+            }
+        })
+        .unwrap();
+    h.join().unwrap_or(false)
+}
